@@ -281,9 +281,10 @@ def python_scalar_arguments(G, ctx):
 
 
 def interpreter_limits(G, ctx):
-    """Deterministic programs that jax.jvp differentiates but the ADEV interpreter does not handle (open findings of C15, each a loud
-    exception; found while extending the model to multi-output equations / cond / loops).  A listed finding is recognised only by its
-    exception type; if the program runs, its value and tangent are compared with jax.jvp like any other."""
+    """Deterministic programs that jax.jvp differentiates and the ADEV interpreter did NOT handle (three repaired defects, each a loud
+    exception; found while extending the model to multi-output equations / cond / loops): a cond branch with several / no outputs
+    (fix c02ba82), a constant cond operand (fix 00a3509), an integer output of a jitted helper carried through a scan (fix 3a42c1e).
+    Value, tangent and gradient are compared with jax.jvp / jax.grad on both sides of the cond."""
     import jax
     import jax.numpy as jnp
     A = G.adev if hasattr(G, "adev") else __import__("genjax.adev", fromlist=["x"])
@@ -306,23 +307,38 @@ def interpreter_limits(G, ctx):
         (i2, v2), _ = jax.lax.scan(lambda c, t: ((c[0] + 1, c[1] * 1.5), t), (i, v), jnp.arange(2.0))
         return v2 + i2.astype(jnp.float32) * 0.0
 
-    table = [("lax.cond with two outputs", f_two, "adev-cond-output-count", ValueError),
-             ("lax.cond whose branches return their operand unchanged (0 outputs after forwarding)", f_ident, "adev-cond-output-count", ValueError),
-             ("lax.cond with a constant (literal) operand", f_lit, "adev-cond-literal-operand", TypeError),
-             ("integer output of a jitted helper carried through a scan", f_int, "adev-pjit-int-tangent", TypeError)]
-    for name, f, cls, exc in table:
-        case = {"kind": "interpreter-limit", "program": name, "x": 0.7}
-        want_p, want_t = jax.jvp(f, (jnp.float32(0.7),), (jnp.float32(1.0),))
-        try:
-            d = A.expectation(f).jvp_estimate(A.Dual(jnp.float32(0.7), jnp.float32(1.0)))
-            if abs(float(d.primal) - float(want_p)) > 1e-5 or abs(float(d.tangent) - float(want_t)) > 1e-5:
-                ctx.property_failure(None, f"{name}: jvp_estimate gives ({float(d.primal)}, {float(d.tangent)}), jax.jvp ({float(want_p)}, {float(want_t)})", case)
-        except Exception as ex:
-            impl.reset_handlers()
-            ctx.property_failure(cls, f"{name}: jvp_estimate raises {type(ex).__name__} ({str(ex)[:100]}) on a deterministic program that jax.jvp differentiates",
-                                 {**case, "error": type(ex).__name__}, matches_asis=isinstance(ex, exc))
-        ctx.case(nontrivial_key=("interpreter-limit", name))
-        ctx.count("interpreter-limit")
+    def f_three(x):
+        a, b, c = jax.lax.cond(x > 0.5, lambda z: (z, jnp.sin(z), 2.0), lambda z: (z * z, z, 1.0), x)
+        return a * b + c
+
+    def f_two_nested(x):
+        a, b = jax.lax.cond(x > 0.5, lambda: jax.lax.cond(x > 0.6, lambda: (x, x * 3.0), lambda: (x * x, x)), lambda: (jnp.cos(x), x + 1.0))
+        return a * b
+
+    table = [("lax.cond with two outputs", f_two), ("lax.cond with three outputs and an operand", f_three), ("nested lax.cond with two outputs", f_two_nested),
+             ("lax.cond whose branches return their operand unchanged (0 outputs after forwarding)", f_ident),
+             ("lax.cond with a constant (literal) operand", f_lit),
+             ("integer output of a jitted helper carried through a scan", f_int)]
+    for name, f in table:
+        for x0 in (0.7, 0.55, 0.2):
+            case = {"kind": "interpreter-limit", "program": name, "x": x0}
+            x = jnp.float32(x0)
+            want_p, want_t = jax.jvp(f, (x,), (jnp.float32(1.0),))
+            try:
+                e = A.expectation(f)
+                d = e.jvp_estimate(A.Dual(x, jnp.float32(1.0)))
+                g = float(e.grad_estimate(x))
+                v = float(e.estimate(x))
+                if abs(float(d.primal) - float(want_p)) > 1e-5 or abs(float(d.tangent) - float(want_t)) > 1e-5:
+                    ctx.property_failure(None, f"{name}: jvp_estimate gives ({float(d.primal)}, {float(d.tangent)}), jax.jvp ({float(want_p)}, {float(want_t)})", case)
+                if abs(g - float(jax.grad(f)(x))) > 1e-5 or abs(v - float(f(x))) > 1e-5:
+                    ctx.property_failure(None, f"{name}: grad_estimate / estimate ({g}, {v}) differ from jax.grad / f ({float(jax.grad(f)(x))}, {float(f(x))})", case)
+            except Exception as ex:
+                impl.reset_handlers()
+                ctx.property_failure(None, f"{name}: ADEV raises {type(ex).__name__} ({str(ex)[:100]}) on a deterministic program that jax.jvp differentiates",
+                                     {**case, "error": type(ex).__name__})
+            ctx.case(nontrivial_key=("interpreter-limit", name, x0))
+            ctx.count("interpreter-limit")
 
 
 def library_functions(G, ctx):
